@@ -15,7 +15,7 @@ REQUIRED_THEOREMS = ["C07_length", "C07_copy", "C07_parents_sorted", "C07_parent
                      "C07_advance_fuel", "C07_count_bound", "C07_zero_weight_not_selected", "C07_heavy_selected",
                      "C07_u1_zero_boundary_refuted", "C07_neff_formula", "C07_neff_range",
                      "C07_selection_interval", "C07_lse_spec", "C07_lse_normalises",
-                     "C07p_num_prior", "C07p_partition", "C07p_parents", "C07p_copy", "C07p_uniform", "C07p_reports_N"]
+                     "C07p_num_prior", "C07p_partition", "C07p_parents", "C07p_copy", "C07p_uniform", "C07p_reports_N", "C07p_count_bound"]
 RULE = ("cases from one seeded stream: N in 1..200, log-weight vectors uniform / one-hot / with exact zeros (-inf) / geometric over 300 "
         "orders of magnitude / dyadic / random / with exact ties, layouts (dl in 1..4, dc in 0..2), 32-bit seeds, 1..3 successive draws on the "
         "same object; prior variant with ratio in {0, 0.25, 0.5, 0.9, random in [0,1)} and a counting or grid initialiser; "
@@ -29,7 +29,7 @@ ASSUMPTIONS = ["the random offset satisfies 0 < u1 < 1/N (std::uniform_real_dist
                "ParticleSetInitialization::initialize keeps the size of the set it is given (checked on the harness initialisers)",
                "std::sort orders the indices by increasing weight; order among equal weights unspecified (compared through the weights)"]
 
-COUNTS = {"quick": 400, "thorough": 6000}
+COUNTS = {"quick": 400, "thorough": 15000}
 NEAR = 1e-12
 ID0 = 1000.0           # state row 0 of original particle i is ID0 + i
 
